@@ -40,7 +40,7 @@ Definition model_handler (on : list string) (t : string) : string :=
       end
   end.
 
-Definition bad_routing (sets : list (list string * list (string * string))) : list nat :=
-  mismatches (fun p : list string * list (string * string) =>
-                forallb (fun th : string * string => String.eqb (model_handler (fst p) (fst th)) (snd th)) (snd p))
+Definition bad_routing (tmpls : list string) (sets : list (list string * list string)) : list nat :=
+  mismatches (fun p : list string * list string =>
+                list_eqb String.eqb (map (model_handler (fst p)) tmpls) (snd p))
              sets 0.
